@@ -518,6 +518,9 @@ func runSrvScenario(sc srvScenario, scn int, res *hx.Result) []srvEvent {
 				res.Add("awaits_timed_out", 1)
 			}
 			r.mu.Unlock()
+		case "pause":
+			// let the server settle (e.g. take a completion a released handler offers)
+			time.Sleep(5 * time.Millisecond)
 		case "fault":
 			if !faulted {
 				inject(st.Kind)
